@@ -18,9 +18,12 @@ from harness import core, popspec
 from harness.core import coq_list
 from harness.popspec import Sub
 
-THEOREMS = ['C17_lengths', 'C17_ids_mark_bottom', 'C17_special_count', 'C17_names_unique']
+THEOREMS = ['C17_lengths', 'C17_ids_mark_bottom', 'C17_special_count', 'C17_names_unique',
+            'C17_nested_reports', 'C17_nested_gradient', 'C17_nested_gradient_length', 'C17_nesting_is_flat',
+            'C17_nested_old_code_refuted', 'C17_flat_old_code_agrees', 'C17_n_ids_uniform',
+            'C17_n_ids_uniform_after_set', 'C17_old_constructor_refuted']
 HEADER = '''From Coq Require Import List Arith Bool.
-From Chi Require Import Model.Layout Tie.C17Tie.
+From Chi Require Import Model.Layout Model.Nested Tie.C17Tie.
 Import ListNotations.
 '''
 KCOQ = {'G': 'KGauss', 'LN': 'KLogNormal', 'TG': 'KTrunc', 'P': 'KPooled', 'H': 'KHetero'}
@@ -314,7 +317,161 @@ def reconfigure_stack(rng):
     return {'kind': kind, 'ops': ops}, None
 
 
+# ------------------------------------------------------------------------------------------------
+# compositions of compositions (Model/Nested.v)
+# ------------------------------------------------------------------------------------------------
+
+def gen_recipe(rng, n_het, depth=0):
+    """('L', kind, nd, n) or ('N', [children]); heterogeneous leaves are built with n_het or 1 individuals"""
+    if depth >= 3 or (depth > 0 and rng.random() < 0.55):
+        kind = rng.choice(['G', 'LN', 'P', 'H', 'H'])
+        return ('L', kind, rng.choice([1, 1, 2]), rng.choice([1, n_het, n_het]) if kind == 'H' else 1)
+    return ('N', [gen_recipe(rng, n_het, depth + 1) for _ in range(rng.choice([1, 2, 2, 3]))])
+
+
+def build_recipe(r):
+    import chi
+    if r[0] == 'L':
+        _, kind, nd, n = r
+        if kind == 'H':
+            return chi.HeterogeneousModel(n_dim=nd, n_ids=n)
+        return {'G': chi.GaussianModel, 'LN': chi.LogNormalModel, 'P': chi.PooledModel}[kind](n_dim=nd)
+    return chi.ComposedPopulationModel([build_recipe(c) for c in r[1]])
+
+
+def coq_recipe(r):
+    if r[0] == 'L':
+        return '(RLeaf %s %d)' % (core.coq_bool(r[1] == 'H'), r[3])
+    return '(RNode %s)' % coq_list(r[1], coq_recipe)
+
+
+def coq_obj(m):
+    import chi
+    if isinstance(m, chi.ComposedPopulationModel):
+        return '(ONode %d %s)' % (m.n_ids(), coq_list(m.get_population_models(), coq_obj))
+    return '(OLeaf %s %d)' % (core.coq_bool(isinstance(m, chi.HeterogeneousModel)), m.n_ids())
+
+
+def coq_tree(r):
+    if r[0] == 'L':
+        kind = {'G': 'KGauss', 'LN': 'KLogNormal', 'P': 'KPooled', 'H': 'KHetero'}[r[1]]
+        return '(Leaf {| sk := %s; sdim := %d; scov := None |})' % (kind, r[2])
+    return '(Node %s)' % coq_list(r[1], coq_tree)
+
+
+def leaves(m):
+    import chi
+    if isinstance(m, chi.ComposedPopulationModel):
+        return [x for c in m.get_population_models() for x in leaves(c)]
+    return [m]
+
+
+def nested_case(rng):
+    """returns (description, [coq bool expressions]) for one random nesting"""
+    import chi
+    n_het = rng.choice([2, 3])
+    r = gen_recipe(rng, n_het)
+    m = build_recipe(r)
+    after_build = coq_obj(m)
+    k = rng.choice([1, 2, 3, 4, n_het])
+    m.set_n_ids(k)
+    after_set = coq_obj(m)
+    exprs = ['c17_nids %s %s %d %s' % (coq_recipe(r), after_build, k, after_set)]
+    sp = [(int(e[0]), int(e[1])) for e in m.get_special_dims()[0]]
+    exprs.append('c17_nested %d %s %d %d %d %s' % (k, coq_tree(r), m.n_dim(), m.n_parameters(),
+                                                   m.n_hierarchical_dim(), coq_list(sp, lambda x: '(%d, %d)' % x)))
+    # hierarchical sensitivities: every leaf on its own slices, then the nested object; floats -> tags
+    n_dim, n_par = m.n_dim(), m.n_parameters()
+    theta = np.array([0.5 + 0.125 * j + 0.03125 * (j % 3) for j in range(n_par)])
+    X = np.array([[0.75 + 0.25 * i + 0.0625 * d for d in range(n_dim)] for i in range(k)])
+    # point masses must hold for finite sensitivities: copy pooled / heterogeneous values into X
+    d0 = p0 = 0
+    for leaf in leaves(m):
+        nd, npar = leaf.n_dim(), leaf.n_parameters()
+        if isinstance(leaf, chi.PooledModel):
+            X[:, d0:d0 + nd] = theta[p0:p0 + npar]
+        elif isinstance(leaf, chi.HeterogeneousModel):
+            X[:, d0:d0 + nd] = theta[p0:p0 + npar].reshape(k, nd)
+        d0, p0 = d0 + nd, p0 + npar
+    U = np.array([[1.0 + 0.5 * i - 0.25 * d for d in range(n_dim)] for i in range(k)])
+    tags = {}
+
+    def tag(x):
+        return tags.setdefault(float(x), len(tags))
+
+    def dleaf(leaf, d0, p0):
+        nd, npar = leaf.n_dim(), leaf.n_parameters()
+        _, ds = leaf.compute_sensitivities(theta[p0:p0 + npar], X[:, d0:d0 + nd], dlogp_dpsi=U[:, d0:d0 + nd].copy(),
+                                           reduce=True)
+        ds = np.asarray(ds, dtype=float)
+        nb, _ = leaf.n_hierarchical_parameters(k)
+        rows = ds[:nb].reshape(k, nb // k) if nb else [[] for _ in range(k)]
+        return '(DLeaf nat %d %s %s)' % (nd, coq_list(rows, lambda row: coq_list([tag(x) for x in row])),
+                                         coq_list([tag(x) for x in ds[nb:]]))
+
+    def dtree(obj, d0, p0):
+        if isinstance(obj, chi.ComposedPopulationModel):
+            parts = []
+            for c in obj.get_population_models():
+                parts.append(dtree(c, d0, p0))
+                d0, p0 = d0 + c.n_dim(), p0 + c.n_parameters()
+            return '(DNode nat %s)' % coq_list(parts)
+        return dleaf(obj, d0, p0)
+    t = dtree(m, 0, 0)
+    score, ds = m.compute_sensitivities(theta, X, dlogp_dpsi=U.copy(), reduce=True)
+    if math.isfinite(score):
+        observed = [tags.get(float(x), 10 ** 6) for x in np.asarray(ds, dtype=float)]
+        exprs.append('c17_red %d %s %s' % (k, t, coq_list(observed)))
+        nb, nt = m.n_hierarchical_parameters(k)
+        if len(ds) != nb + nt:
+            exprs.append('false')
+    return {'recipe': repr(r), 'k': k}, exprs
+
+
 def oracle(case):
+    if case.get('type') == 'nested':
+        import chi
+        r = eval(case['recipe'])
+        flat_leaves = []
+
+        def walk(x):
+            if x[0] == 'L':
+                flat_leaves.append(x)
+            else:
+                for c in x[1]:
+                    walk(c)
+        walk(r)
+        k = case['k']
+        m, f = build_recipe(r), chi.ComposedPopulationModel([build_recipe(x) for x in flat_leaves])
+        m.set_n_ids(k)
+        f.set_n_ids(k)
+        if (m.n_dim(), m.n_parameters(), m.n_hierarchical_dim()) != (f.n_dim(), f.n_parameters(), f.n_hierarchical_dim()):
+            return 'nested composition %s reports (n_dim, n_parameters, n_hierarchical_dim) = %r, the flat composition of ' \
+                   'its leaves %r' % (r, (m.n_dim(), m.n_parameters(), m.n_hierarchical_dim()),
+                                      (f.n_dim(), f.n_parameters(), f.n_hierarchical_dim()))
+        bad = [x.n_ids() for x in leaves(m) if isinstance(x, chi.HeterogeneousModel) and x.n_ids() != k]
+        if bad:
+            return 'after set_n_ids(%d) on the nested composition %s heterogeneous leaves model %r individuals' % (k, r, bad)
+        theta = np.array([0.5 + 0.125 * j for j in range(m.n_parameters())])
+        X = np.array([[0.75 + 0.25 * i + 0.0625 * d for d in range(m.n_dim())] for i in range(k)])
+        d0 = p0 = 0
+        for leaf in leaves(m):
+            nd, npar = leaf.n_dim(), leaf.n_parameters()
+            if isinstance(leaf, chi.PooledModel):
+                X[:, d0:d0 + nd] = theta[p0:p0 + npar]
+            elif isinstance(leaf, chi.HeterogeneousModel):
+                X[:, d0:d0 + nd] = theta[p0:p0 + npar].reshape(k, nd)
+            d0, p0 = d0 + nd, p0 + npar
+        try:
+            a = m.compute_sensitivities(theta, X, reduce=True)
+            b = f.compute_sensitivities(theta, X, reduce=True)
+        except Exception as e:
+            return 'hierarchical sensitivities of the nested composition %s for %d individuals: %s: %s' % (
+                r, k, type(e).__name__, e)
+        if abs(a[0] - b[0]) > 1e-12 * (1 + abs(b[0])) or not np.allclose(a[1], b[1], rtol=1e-12, atol=1e-12):
+            return 'nested composition %s: hierarchical sensitivities %r, flat composition of its leaves %r' % (
+                r, np.asarray(a[1]).tolist(), np.asarray(b[1]).tolist())
+        return None
     if case.get('type') == 'reconf_stack':
         return reconfigure_stack(random.Random(case['seed']))[1]
     if case.get('type') == 'reconf':
@@ -332,6 +489,8 @@ def oracle(case):
 def key_of(case, what):
     if case.get('type') == 'reconf':
         return 'C17|reconfiguration'
+    if case.get('type') == 'nested':
+        return 'C17|nested'
     return 'C17|%s' % '+'.join(Sub(**d).describe() for d in case['subs'])
 
 
@@ -402,6 +561,37 @@ def run(ck):
         ck.case({'reconfiguration_stack': desc})
         if fail:
             ck.violation('C17|reconfiguration_stack', fail, {'type': 'reconf_stack', 'seed': seed})
+    nested, npayload = [], {}
+    for j in range(ck.n(150, 1500)):
+        seed = ck.seed * 43 + j
+        case = {'type': 'nested', 'seed': seed}
+        try:
+            desc, ex = nested_case(random.Random(seed))
+        except Exception as e:
+            ck.violation('C17|nested', 'chi raised %s: %s' % (type(e).__name__, e), case)
+            continue
+        case.update(desc)
+        ck.count('nested compositions')
+        ck.case({'nested': desc})
+        for q, e in enumerate(ex):
+            nested.append(('n%d_%d' % (j, q), e))
+            npayload['n%d_%d' % (j, q)] = case
+    ck.log('exact route: %d nested-composition expressions' % len(nested))
+    nbad = ck.exact('nested', HEADER, nested, shard=150)
+    if nbad:
+        nw = random.Random(ck.seed + 23)
+
+        def wider_nested():
+            for _ in range(ck.n(200, 1500)):
+                sd = nw.randrange(10 ** 9)
+                try:
+                    d, _ = nested_case(random.Random(sd))
+                except Exception:
+                    d = None
+                if d:
+                    yield dict(d, type='nested', seed=sd)
+        ck.settle('correspondence C17: Model/Nested.v and chi differ on %s (first: %s)' % (nbad[:5], npayload[nbad[0]]),
+                  [npayload[b] for b in nbad], oracle, wider_nested(), key_of)
     ck.cov['rule'] = ('compositions of 1-4 sub-models drawn from 5 kinds x n_dim 1-2 x centred flag x {no covariates, '
                       'default selection, custom selection with duplicates} (thorough: all ordered pairs, exhaustive), '
                       '1-3 individuals, as HierarchicalLogLikelihood or HierarchicalLogPosterior, evaluated with '
